@@ -868,19 +868,23 @@ func (sc *segmentController[T, O]) create(ctx context.Context, start time.Time) 
 	// Anchor stdEnd to the aligned start before any bump so end stays on the
 	// global grid even when start is bumped past a legacy off-grid neighbor;
 	// subsequent segments then self-heal back to the grid.
+	ts := start
 	alignedStart := options.SegmentInterval.Standard(start)
 	stdEnd := options.SegmentInterval.NextTime(alignedStart)
 	start = alignedStart
-	// sc.lst is sorted ascending by start time with non-overlapping ranges;
-	// a single pass bumps start past every legacy segment that swallows it
-	// (each next segment.Start >= previous.End).
+	// sc.lst is sorted ascending by start time with non-overlapping ranges and
+	// no segment contains ts (checked above). The new segment is the gap around
+	// ts inside its grid bucket: bump start past every legacy segment that ends
+	// at or before ts, and cap the end at the first segment that starts after ts.
 	var next *segment[T, O]
 	for _, s := range sc.lst {
-		if s.Contains(start.UnixNano()) {
-			start = s.End
+		if !s.End.After(ts) {
+			if s.End.After(start) {
+				start = s.End
+			}
 			continue
 		}
-		if next == nil && s.Start.After(start) {
+		if next == nil && s.Start.After(ts) {
 			next = s
 		}
 	}
